@@ -10,6 +10,7 @@ Layer A (EUF, z3 direct): operand values are terms of an uninterpreted sort, eve
 Layer B (CrossHair): x, y symbolic ints, s a list of three symbolic ints; same value or same exception type.
 """
 import itertools
+import zlib
 
 BIN = ["+", "-", "*", "/", "//", "%", "**", "<=", "<", ">=", ">", "==", "!=", "&", "|", "^", ">>", "<<"]
 RISKY_RIGHT = {"**", ">>", "<<"}      # the engine concretises the right operand: narrow range
@@ -313,7 +314,8 @@ def gen_trees(tier, seed):
     trees += d2
     # depth 3: left-deep, right-deep, balanced over non-commutative operators
     for o1, o2, o3 in itertools.product(["-", "//", "<<", "+", "%"], repeat=3):
-        if tier == "quick" and (hash((o1, o2, o3)) % 5 != 0):
+        # (deterministic selection: Python's hash() of strings changes from process to process)
+        if tier == "quick" and ((zlib.crc32((o1 + " " + o2 + " " + o3).encode()) + seed) % 5 != 0):
             continue
 
         def rr(o, l, r):
@@ -425,7 +427,7 @@ def build(tier, seed):
         chunk = trees[b:b + batch]
         src_b = LAYER_B.replace('%(trees)r', repr(chunk)).replace('%%', '%')
         obs.append({"id": "C09/values/%03d" % (b // batch), "module": "c09_b%03d" % (b // batch), "source": src_b,
-                    "fn": ["t%d" % i for i in range(len(chunk))], "required_tags": ["same"],
+                    "fn": ["t%d" % i for i in range(len(chunk))], "required_tags": ["same"], "timeout": 300 if tier == "quick" else 1500,
                     "bound": "x, y symbolic in [-4,300]; case-split to [-2,3] where the operator needs concrete operands (/, bitwise or product/"
                              "quotient of two unknowns, symbolic shift count/exponent); k in [-1,6]; s = list of 3 symbolic bytes",
                     "assertion": "same value, or the same exception type (ZeroDivisionError, ValueError, IndexError, TypeError, KeyError)",
